@@ -768,6 +768,11 @@ class BaseConnector:
 
             if self._available_connections(key) > 0:
                 break
+            # Woken up but the slot is gone: the wake-up may have been meant
+            # for another host (_release_waiter does not see wake-ups that are
+            # still in flight). Hand it on before queueing again, otherwise a
+            # waiter of a host that does have a free slot keeps sleeping.
+            self._release_waiter()
             attempts += 1
 
     async def _get(
